@@ -5,6 +5,7 @@ import CovfieModel.Model.OwnScript
 import CovfieModel.Model.IOScript
 import CovfieModel.Model.ArrScript
 import CovfieModel.Model.TmplScript
+import CovfieModel.Model.NdScript
 import CovfieModel.Model.BinScript
 import CovfieModel.Model.Sentences
 /-! Driver for the translated kernels (DESIGN.md §11.6).
@@ -25,7 +26,7 @@ def step (cur : Option Stmt) (line : String) : Option Stmt × List String :=
       Covfie.RImp.Ref.all.map (fun (n, p) => s!"K {n} {Covfie.RImp.Ref.text n p}") ++
       Covfie.Heap.Ref.all.map (fun (n, t) => s!"K {n} {t}") ++
       Covfie.IO.Ref.all.map (fun (n, p) => s!"K {n} {p.toSexp}") ++
-      [s!"K io_array {Covfie.IO.ARef.text}", s!"K static_permutation {Covfie.Tmpl.Ref.text}"] ++
+      [s!"K io_array {Covfie.IO.ARef.text}", s!"K static_permutation {Covfie.Tmpl.Ref.text}", s!"K nd_map_equations {Covfie.Nd.Ref.text}"] ++
       Covfie.IO.BRef.all.map (fun (n, t) => s!"K {n} {t}") ++
       Covfie.Sentences.all.map (fun (n, _, t) => s!"K {n} {t}"))
   | ["ref", n] =>
